@@ -12,3 +12,11 @@ func VerifWithRedisPersistence(addr string) Options {
 		srv.config.Persistence.Redis.Addr = addr
 	}
 }
+
+// VerifWithPersistenceType selects a persistence factory registered under name (the harness registers wrappers of the
+// memory persistence that inject store faults). It edits the configuration in place: put it after WithConfig.
+func VerifWithPersistenceType(name string) Options {
+	return func(srv *server) {
+		srv.config.Persistence.Type = name
+	}
+}
